@@ -42,6 +42,11 @@ def evaluate(c, r):
         if "dp" in s and reducible and s["dp"] < -1e-13:
             # proved for EVERY iteration count: no convergence filter on the spectral path
             V.append(("dgamma-negative", k, "p_new - p_old = %.3e (spectral return)" % s["dp"]))
+        if reducible and s.get("f_trial") is not None and s["f_trial"] < -1e-9 * sc and s.get("finite", True):
+            # proved for every iteration count and every hardening law: a point whose trial state is
+            # inside the surface is frozen -- no flow, trial stress returned
+            if abs(s["dp"]) > 0 or (s.get("elastic_trial_returned") or 0.0) > 1e-8 * sc:
+                V.append(("idle-point-flows", k, "f_trial = %.3e < 0 but dp = %.3e, |sig - sig_trial| = %.3e" % (s["f_trial"], s["dp"], s.get("elastic_trial_returned") or 0.0)))
         if not ok:
             continue
         if not s.get("finite", True):
@@ -86,6 +91,14 @@ def evaluate(c, r):
                 V.append(("solvers-disagree-tangent", k, "|dC|/|C| = %.3e" % (so["dC"] / so["nC"])))
             if not so.get("pure_other", True):
                 V.append(("integrate-writes-its-arguments", k, "newton solver"))
+    for rec in r.get("batch", []):
+        k = rec["k"]
+        if reducible and rec.get("f_trial") is not None and rec["f_trial"] < -1e-9 * sc and not c.get("branches"):
+            if rec["dp_b"] != 0.0 or rec["dtrial"] > 1e-8 * sc:
+                V.append(("idle-point-flows", k, "batched call: f_trial = %.3e < 0 but p = %.3e, |sig - sig_trial| = %.3e" % (rec["f_trial"], rec["dp_b"], rec["dtrial"])))
+        if rec["ok_b"] and rec["ok_s"] and not custom:
+            if rec["dsig"] > 1e-7 * max(rec["nsig"], sy) or rec["dz"] > 1e-9:
+                V.append(("gauss-points-not-independent", k, "batched vs single-point call: |dsig| = %.3e, |dz| = %.3e" % (rec["dsig"], rec["dz"])))
     return V
 
 
@@ -98,8 +111,9 @@ def sig_key(c):
 def evaluate_sim(c, r):
     V = []
     if r.get("error"):
-        return [("sim-error", -1, r["error"][-300:])]
-    for i, ev in enumerate(r["events"]):
+        # events recorded before the run stopped are still evaluated
+        V.append(("sim-error", len(r.get("events", [])), r["error"][-300:]))
+    for i, ev in enumerate(r.get("events", [])):
         op = ev["op"][0]
         if op in ("solve", "assemble", "result") and ev.get("unchanged") is False:
             V.append(("committed-state-changed-without-save", i, "%s changed simu.__zOld bitwise" % op))
